@@ -2404,5 +2404,31 @@ mod generics_search {
 
             syn::visit::visit_expr_path(self, ep)
         }
+
+        fn visit_expr(&mut self, e: &'ast syn::Expr) {
+            // Without the `full` feature of `syn`, a braced const argument (`Ty<{ N }>`) is kept
+            // as raw tokens.
+            if let syn::Expr::Verbatim(tokens) = e {
+                self.found |= self.any_in_tokens(tokens.clone());
+            }
+
+            syn::visit::visit_expr(self, e)
+        }
+    }
+
+    impl Visitor<'_> {
+        /// Checks whether the provided raw tokens mention any type or const parameter.
+        fn any_in_tokens(&self, tokens: proc_macro2::TokenStream) -> bool {
+            tokens.into_iter().any(|tt| match tt {
+                proc_macro2::TokenTree::Ident(ident) => {
+                    self.search.types.contains(&ident)
+                        || self.search.consts.contains(&ident)
+                }
+                proc_macro2::TokenTree::Group(group) => {
+                    self.any_in_tokens(group.stream())
+                }
+                _ => false,
+            })
+        }
     }
 }
